@@ -67,3 +67,10 @@ check("C16",
   "binary(x, s) on a symbolic numeric column is explored over every feasible pattern of x_i == s and compared with If(x_i == s, 1, 0) (smallest value if s omitted; refusal only on paths where no row equals s); binary on categoricals, offset (column, constants, calls) at training and recomputed from fresh symbols at prediction, prop trials of the new frame at prediction, I(e) == e == {e}; every alias pair (B/binary, p/prop/proportion, standardize/scale, T/C+Treatment, S/C+Sum) gives equal z3 terms and labels equal modulo the callee name, at training and at prediction.",
   "Trusted: z3; stubs in evidence. Integrality validation of prop is exercised on concrete tables only (np.mod on a real term is uninterpreted).",
   "DESIGN.md section 4 C16")
+
+check("C14",
+  "symbolic execution of the real Center/Scale/Polynomial on z3-real data vectors; contracts as NRA obligations (division-free quotients, square-root variables) decided by z3; bs parameter validation/column counts over enumerated parameters",
+  "model_checking",
+  "center: sum of outputs == 0; scale/standardize: sum == 0 and sum of squares == n under std != 0; both the same affine map (training mean/std) on fresh symbolic later data; poly(raw): exactly the powers x^1..x^d (d <= 6), at training and prediction; poly orthonormal: columns orthogonal to the constant, unit norm and satisfying the three-term recurrence with the fitted parameters (hence same span as the raw powers) for degree 1 (n <= 10) and degree 2 (n = 3); bs: every df/degree/intercept/knots combination in the bound is either refused (invalid) or yields the documented number of columns, invalid bounds/knots refused.",
+  "Trusted: z3 (nlsat); stubs in evidence; std != 0, x not constant. NOT decided and not claimed: non-negativity / partition of unity of bs values (FITPACK), poly orthonormality for higher degree/n (solver unknown), anything about IEEE rounding (reals, not floats).",
+  "DESIGN.md section 4 C14")
